@@ -78,7 +78,8 @@ def gen_program(r: Any, situation: str) -> dict:
     items = []
     for i in range(r.randint(1, 3)):
         mode = r.choice(["imm", "rel", "rel", "abs"])
-        delay = 0.0 if mode == "imm" else r.choice([0.1, 0.2, 0.5])
+        # (1/3 s and 0.4 us are not whole microseconds: a float delay goes to the loop as it is)
+        delay = 0.0 if mode == "imm" else r.choice([0.1, 0.2, 0.5, 0.1, 0.2, 1.0 / 3.0, 4e-7] if mode == "rel" else [0.1, 0.2, 0.5])
         disp = r.choice([None, 0.0, 0.0, delay / 2, delay, delay + 0.1]) if delay else r.choice([None, 0.0, 0.0, 0.05])
         items.append({"mode": mode, "delay": delay, "dispose_after": disp})
     sched = "ts" if situation == "foreign" else r.choice(["ts", "plain"])
